@@ -153,8 +153,23 @@ static void case_nextprime(ByteSource& in, CaseInfo& ci) {
 }
 
 // ---- exhaustive sweep: every n in [0, 2^16) through the primality functions, small n through the combinatorial ones ----------
-static uint64_t sweep_count() { return 65536; }
+// third sweep domain: starts just below composites c = p*(m(p-1)+1), p and m(p-1)+1 prime, m = 2..7 (products with many Miller-Rabin
+// liars: the kind of composite that survives the two rounds of mpz_next_prime_candidate) for which c + 2 is prime: mpz_nextprime(c - 1)
+// must then be exactly c + 2
+static const std::vector<uint64_t>& np_cands() {
+  static std::vector<uint64_t> v; if (!v.empty()) return v;
+  const uint32_t L = 3000000; std::vector<bool> comp(L + 1, false); for (uint64_t a = 2; a * a <= L; a++) if (!comp[a]) for (uint64_t b = a * a; b <= L; b += a) comp[b] = true;
+  for (uint64_t p = 10007; p <= L; p++) { if (comp[p]) continue; for (uint64_t m = 2; m <= 7; m++) { uint64_t q = m * (p - 1) + 1; if (!ref::is_prime_u64(q)) continue; uint64_t c = p * q; if (ref::is_prime_u64(c + 2)) v.push_back(c); } }
+  return v;
+}
+static void sweep_pseudoprime_start(uint64_t i, CaseInfo& ci) {
+  uint64_t c = np_cands()[i]; ci.d("mpz_nextprime(%llu): the argument + 1 is a product of two primes p, m(p-1)+1 and argument + 3 is prime", (unsigned long long)(c - 1));
+  Z n, r; mpz_set_ui(n, c - 1); mpz_nextprime(r, n); REQUIRE(int_from_mpz(r) == Int::from_u64(c + 2), "mpz_nextprime(%llu) = %s: skipped the prime %llu", (unsigned long long)(c - 1), ref::to_string(int_from_mpz(r), 10).c_str(), (unsigned long long)(c + 2));
+  mpz_set_ui(n, c - 2); mpz_nextprime(n, n); REQUIRE(int_from_mpz(n) == Int::from_u64(c + 2) || ref::is_prime_u64(c - 1), "mpz_nextprime(%llu) in place: wrong", (unsigned long long)(c - 2));
+}
+static uint64_t sweep_count() { return 65536 + np_cands().size(); }
 static void sweep_item(uint64_t i, CaseInfo& ci) {
+  if (i >= 65536) { sweep_pseudoprime_start(i - 65536, ci); return; }
   ci.d("n=%llu", (unsigned long long)i); Z n, r; mpz_set_ui(n, i); bool p = ref::is_prime_u64(i); RS rs(i * 2654435761u + 1);
   int g = mpz_probab_prime_p(n, 25); REQUIRE(p ? g != 0 : g == 0, "mpz_probab_prime_p(%llu, 25) = %d, %s", (unsigned long long)i, g, p ? "prime" : "composite");
   g = mpz_probable_prime_p(n, rs.s, 50, 0); REQUIRE(p ? g != 0 : g == 0, "mpz_probable_prime_p(%llu, prob 50) = %d, %s", (unsigned long long)i, g, p ? "prime" : "composite");
@@ -191,5 +206,5 @@ namespace eng {
 PropDef g_prop = {"C16",
   "Cases: a rare class (~1 in 1300) of mpz_primorial_ui / mpz_fac_ui / mpz_bin_uiui with arguments 10^5..4*10^6 (thorough: 3*10^7; several blocks of the prime sieve) compared modulo four 61-bit primes with an own sieve / modular factorials; mpz_fac_ui/2fac_ui/mfac_uiui/primorial_ui (n dense to 120, around table ends and FAC thresholds, log-uniform to the scale cap; m in {1..12, n-1, n, n+1, > n}); mpz_bin_uiui on (n,k) shapes for each algorithm region (small, k near 0 or n, central, huge n with small k, k>n) and mpz_bin_ui with negative and multi-limb n; mpz_fib_ui/fib2_ui/lucnum_ui/lucnum2_ui (dense to 200, around 93/186 table limits, log-uniform beyond, n=0); mpz_remove (f>=2 only: 2, small, 2^j, multi-limb; multiplicity 0..thousands; negative op; aliasing); primality: all n < 70000, n near 2^16/2^31/2^32/2^53/2^63/2^64, random 64-bit, Chernick Carmichael numbers, strong pseudoprimes (psi values), squares and products of close primes, large primes of special form (Mersenne, 2^k+-c) and composites built from them; nextprime / next_prime_candidate incl. starts of large prime gaps and arguments next to 2^64. Oracle: refint by definition (product trees, multiplicative binomial with verified exact division, fast-doubling Fibonacci); deterministic Miller-Rabin for n < 2^81, construction knowledge beyond; checks: never 0 for a prime, never 2 for a composite, 0 for composites at reps>=25 / prob>=50, result > n with no prime strictly between. mpz_miller_rabin only on odd n >= 11. Non-trivial: result >= 2 limbs / n > 3. Distinct = hash of all decoded choices.",
   check, setup_primes, {"huge_sieve_argument", "carmichael", "strong_pseudoprime", "semiprime_close", "large_prime_special_form", "large_composite_special_form", "near_2^k", "bin:k_gt_n", "bin_ui:negative_n", "bin_ui:multi_limb_n", "mfac:m_gt_n", "fac:ge_dsc_threshold", "fib:n0", "large_gap_start", "remove:negative_op"}, nullptr, sweep_count, sweep_item,
-  "every n in [0,2^16): mpz_probab_prime_p (25 reps), mpz_probable_prime_p (prob 50), mpz_likely_prime_p, mpz_miller_rabin (odd n>=11), mpz_nextprime (exact next prime), mpz_next_prime_candidate; every n <= 1500: fac, 2fac, mfac m=3..5, primorial, fib, fib2, lucnum, lucnum2; every (n,k) in [0,89]x[0,94]: bin_uiui, bin_ui"};
+  "every n in [0,2^16): mpz_probab_prime_p (25 reps), mpz_probable_prime_p (prob 50), mpz_likely_prime_p, mpz_miller_rabin (odd n>=11), mpz_nextprime (exact next prime), mpz_next_prime_candidate; every n <= 1500: fac, 2fac, mfac m=3..5, primorial, fib, fib2, lucnum, lucnum2; every (n,k) in [0,89]x[0,94]: bin_uiui, bin_ui; plus mpz_nextprime started just below every composite p*(m(p-1)+1) (p prime in [10007, 3*10^6], m = 2..7, second factor prime) whose successor + 2 is prime"};
 }
